@@ -267,7 +267,8 @@ fn sorting(t: &mut Tape, ctx: &mut Ctx, maxlen: usize) -> CheckResult {
     ensure!(ctx, p.windows(2).all(|w| y[w[0]] <= y[w[1]]), "argsort", "argsort(i16) does not sort");
     // sort_by: values sorted by key - any sorting permutation of the key is acceptable
     ctx.sub("sort-by");
-    let vals: Vec<usize> = x.iter().enumerate().map(|(i, _)| 10 * i + t.choice(3)).collect();
+    // arbitrary (in particular: not sorted) values; distinct, so that each can be traced
+    let vals: Vec<usize> = x.iter().enumerate().map(|(i, _)| 1000 * t.choice(50) + i).collect();
     let r = un(&mk(vals.clone()).sort_by(&ax));
     ensure!(ctx, r.len() == x.len(), "sort-by", "sort_by length");
     let mut sk = x.clone();
